@@ -662,6 +662,7 @@ func (d *cborDecDriver[T]) DecodeExt(rv interface{}, basetype reflect.Type, xtag
 }
 
 func (d *cborDecDriver[T]) decTagBigIntAsFloat(neg bool) (f float64) {
+	d.bdRead = false // the tag head is consumed: the content is the next item (a byte string)
 	bs, _ := d.DecodeBytes()
 	bi := new(big.Int).SetBytes(bs)
 	if neg { // neg big.Int
@@ -676,8 +677,10 @@ func (d *cborDecDriver[T]) decTagBigFloatAsFloat(decimal bool) (f float64) {
 	if nn := d.r.readn1(); nn != 0x82 { // array of 2 (RFC 8949 3.4.4); was decimal 82 = 0x52
 		halt.errorf("(%d) decoding decimal/big.Float: expected 2 numbers", nn)
 	}
-	exp := d.DecodeInt64()
-	mant := d.DecodeInt64()
+	// exponent and mantissa are integers (RFC 8949 3.4.4): read them as such. Going through DecodeInt64
+	// re-entered decFloat on the stale tag descriptor (or on a nested tag), one stack frame per input byte.
+	exp := d.decTagInteger()
+	mant := d.decTagInteger()
 	if decimal { // m*(10**e)
 		// MARKER: if precision/other issues crop, consider using big.Float on base 10.
 		// The logic is more convoluted, which is why we leverage readFloatResult for now.
@@ -697,6 +700,16 @@ func (d *cborDecDriver[T]) decTagBigFloatAsFloat(decimal bool) (f float64) {
 		f, _ = bf.Float64()
 	}
 	return
+}
+
+func (d *cborDecDriver[T]) decTagInteger() (i int64) {
+	d.readNextBd()
+	ui, neg, ok := d.decInteger()
+	if !ok {
+		halt.errorf("decoding decimal/big.Float: expected an integer, got: 0x%x (%s)", d.bd, cbordesc(d.bd))
+	}
+	d.bdRead = false
+	return decNegintPosintFloatNumberHelperInt64v(ui, neg, true)
 }
 
 func (d *cborDecDriver[T]) DecodeNaked() {
